@@ -108,6 +108,16 @@ def gen_program(rnd):
         # a row read with a secret index stored at a public position, then written through a tuple index
         kinds.add("row-copy-then-tuple-write")
         k0 = rnd.randint(0, shape[0] - 1)
+        if shape[0] > 2 and rnd.random() < 0.5:
+            # the same row view stored at two public positions: they must stay independent of each other and of the view
+            kinds.add("row-view-stored-twice")
+            k1 = rnd.choice([k for k in range(shape[0]) if k != k0])
+            lines.append("snap = A[%s]" % index(0))
+            lines.append("A[%d] = snap" % k0)
+            lines.append("A[%d] = snap" % k1)
+            lines.append("A[%d, %s] = %s" % (k0, index(1), elem()))
+            lines.append("r%d = A[%d][%d] + snap[%d] * 3 + 0" % (nres, k1, rnd.randint(0, shape[1] - 1), rnd.randint(0, shape[1] - 1)))
+            nres += 1
         lines.append("A[%d] = A[%s]" % (k0, index(0)))
         lines.append("A[%d, %s] = %s" % (k0, index(1), elem()))
         lines.append("A[%d, %d] = %s" % (k0, rnd.randint(0, shape[1] - 1), elem()))
